@@ -3,7 +3,7 @@
 From Coq Require Import ZArith List Bool Arith Lia.
 From Coq Require Import QArith.
 From RV Require Import Val Syntax Rho Offline Online Sat IA Pastify Jitter Units Support Lexer Parser Elab Dense DenseSem DenseMerge DenseOnlineMerge DenseOnlineFold DenseOnlineWin DenseEval DenseWin DenseVisitor DenseSat Explain ExtZ.
-From RV Require DenseOnlineMon.
+From RV Require DenseOnlineMon ParserDeclOracle.
 Import ListNotations.
 
 Definition zformula := @formula ExtZVal.
@@ -115,6 +115,9 @@ Definition run_onlwin (kind : nat) (a b : Z) (bs : list (list (Z * extz))) :=
 (* the whole dense-time online monitor: one update() per element of envs (a batch per variable index); the lists the calls return *)
 Definition run_onlmon (pk : zformula -> zformula -> pkind) (p : zformula) (envs : list (list (list (Z * extz)))) : option (list (list (tz * extz))) :=
   option_map snd (DenseOnlineMon.mon_run ExtZArith pk p (DenseOnlineMon.mon_init p) envs).
+
+(* parse() of a whole specification text: ParserDeclOracle.run_parsefile *)
+Definition run_parsefile := ParserDeclOracle.run_parsefile.
 
 (* explain() on a list of assertions: the table of intervals per input variable *)
 Definition run_explain (ps : list zformula) (w : ztrace) (n : nat) : option (list (nat * list (nat * nat))) :=
